@@ -17,7 +17,7 @@ func init() {
 	register("Pool", genPool)
 }
 
-func strConst(relDir, name string) (string, error) {
+func c09StrConst(relDir, name string) (string, error) {
 	cs, err := pkgConsts(relDir)
 	if err != nil {
 		return "", err
@@ -328,7 +328,7 @@ func genPool() (string, error) {
 	// --- reset reasons
 	reasons := map[string]string{}
 	for _, n := range []string{"StreamLocalReset", "StreamRemoteReset", "StreamConnectionTermination", "StreamConnectionFailed", "UpstreamReset"} {
-		v, err := strConst("pkg/types", n)
+		v, err := c09StrConst("pkg/types", n)
 		if err != nil {
 			return "", err
 		}
@@ -567,7 +567,7 @@ func genPool() (string, error) {
 	}
 	ppnames := func() map[string]string {
 		m := map[string]string{"maxConns": "maxConns", pptot + ".Load()": "total", "n": "n",
-			"?*ast.CallExpr.Max()": "maxConns"}
+			"?*ast.CallExpr.Max()": "maxConns", "host.ClusterInfo().ResourceManager().Connections().Max()": "maxConns"}
 		for k, v := range reasons {
 			m[k] = v
 		}
